@@ -34,7 +34,7 @@ def deviations():
 
 
 def proofs():
-    for name in ("MonitorProofs", "FilterNodeProofs", "JoinProofs"):
+    for name in ("MonitorProofs", "FilterNodeProofs", "JoinProofs", "TypedProofs"):
         r = vlib.prove(name)
         expect("obligations proved" in r, "TLAPS: " + r[:120])
 
